@@ -135,16 +135,16 @@ Definition flatA (b : block) := flat_map (flatten_tree FUEL) (b_a2k b).
 Definition flatK (b : block) := flat_map (flatten_tree FUEL) (b_k2a b).
 Definition flatN (b : block) := flat_map (flatten_tree FUEL) (b_names b).
 Definition flatL (b : block) := flat_map (flatten_tree FUEL) (b_lnames b).
-Definition block_ok (listpre : string -> string) (b : block) : bool :=
+Definition block_ok (kname listpre : string -> string) (b : block) : bool :=
   depth_ok FUEL (b_a2k b) && depth_ok FUEL (b_k2a b) && depth_ok FUEL (b_names b) && depth_ok FUEL (b_lnames b) &&
   compat (flatA b) (flatK b) && keys_ok (flatA b) && fix_guarded (flatA b) &&
-  names_compat listpre (relax (flatA b)) (flat_spec false (flatN b)) &&
+  names_compat kname listpre (relax (flatA b)) (flat_spec false (flatN b)) &&
   latex_compat (relax (flatA b)) (flat_spec true (flatL b)).
 
 Section BlockThm.
-Variables (render : string -> nat -> string) (listpre : string -> string) (b : block).
+Variables (render : string -> nat -> string) (kname listpre : string -> string) (b : block).
 Hypothesis Hrender : forall pre j, has_log pre = false -> has_log (render pre j) = false.
-Hypothesis Hok : block_ok listpre b = true.
+Hypothesis Hok : block_ok kname listpre b = true.
 Variables (c : cfg) (args : list R).
 
 Definition run_a2k (i : nat) := exec_list (do_a2k args) c FUEL (b_a2k b) ([], i).
@@ -177,12 +177,12 @@ Proof.
   eapply slot_alignment; eassumption.
 Qed.
 (* plain names: the p-th name is the documented name of the key of slot p (gamma_pl_list[j] |-> listpre % j) *)
-Theorem block_names : clatex c = false -> run_names = Some (map (slot_name render listpre) slots).
+Theorem block_names : clatex c = false -> run_names = Some (map (slot_name render kname listpre) slots).
 Proof.
   intros Hl. unpack. unfold run_names, slots.
   rewrite exec_list_flat by (apply depth_ok_sound; assumption).
   rewrite <- (flat_spec_sound (do_name render) c), Hl.
-  rewrite (names_alignment render listpre c (relax (flatA b)) _ []) by assumption. cbn [app]. now rewrite table_relax.
+  rewrite (names_alignment render kname listpre c (relax (flatA b)) _ []) by assumption. cbn [app]. now rewrite table_relax.
 Qed.
 (* LaTeX names: one label per slot; it mentions log_{10} exactly for the log10-sampled components *)
 Theorem block_latex : clatex c = true ->
